@@ -29,6 +29,10 @@ func (e *env) ordValues() []sc {
 			out = append(out, sc{fmt.Sprintf("%s%+d", v.n, d), "mont", add(v.v, bi(d))})
 		}
 	}
+	// residues whose Montgomery form (k*2^256 mod n) is structured
+	for _, mv := range montSet(ec.N, "n", e.x.Thorough()) {
+		out = append(out, sc{"R^-1*(" + mv.name + ")", "mont-structured", fromMont(mv.m, ec.N)})
+	}
 	return out
 }
 
